@@ -270,6 +270,7 @@ func (s *lkShape) model(ent, idx []*big.Int) (tables [][]*big.Int, qs []lkQ) {
 // position of the chain receives.
 type mgShape struct {
 	withEmulated bool
+	t1Const      int // constant row in table 1 (witness entries): 0 none, 1 first, 2 last, 3 in the middle
 	nRec         int // filled in Define: number of harness callbacks
 }
 
@@ -286,6 +287,29 @@ type mgCircuit struct {
 	sh   *mgShape
 }
 
+const mgT1Const = 424242
+
+var t1ConstName = []string{"all-witness", "const-first", "const-last", "const-middle"}
+
+// mgTable1 is the model of table 1's content.
+func mgTable1(t1 [4]*big.Int, pos int) []*big.Int {
+	c := big.NewInt(mgT1Const)
+	var t []*big.Int
+	if pos == 1 {
+		t = append(t, c)
+	}
+	for i := range t1 {
+		if pos == 3 && i == 2 {
+			t = append(t, c)
+		}
+		t = append(t, t1[i])
+	}
+	if pos == 2 {
+		t = append(t, c)
+	}
+	return t
+}
+
 const (
 	tagRecFirst = 100 // harness callback registered before all gadgets' callbacks
 	tagRecMid   = 101 // between gadget callbacks
@@ -295,8 +319,17 @@ const (
 func (c *mgCircuit) Define(api frontend.API) error {
 	api.AssertIsBoolean(c.Pub)
 	t1 := logderivlookup.New(api) // defers its argument
+	if c.sh.t1Const == 1 {
+		t1.Insert(mgT1Const)
+	}
 	for i := range c.T1 {
+		if c.sh.t1Const == 3 && i == 2 {
+			t1.Insert(mgT1Const)
+		}
 		t1.Insert(c.T1[i])
+	}
+	if c.sh.t1Const == 2 {
+		t1.Insert(mgT1Const)
 	}
 	r1 := t1.Lookup(c.Q1[0], c.Q1[1])
 	record(api, 0, r1[0])
